@@ -19,6 +19,8 @@ PFUNCS = """  (func $p (param i64) local.get 0 call $print_i64 i32.const 10 call
   (func $pf32 (param f32) local.get 0 i32.reinterpret_f32 i64.extend_i32_u call $p)
   (func $pf64 (param f64) local.get 0 i64.reinterpret_f64 call $p)
 """
+DIRTY = ("  (func $dirty (param $v i64) " + " ".join("(local $d%d i64)" % i for i in range(12)) + "\n    " +
+         " ".join("local.get $v local.set $d%d" % i for i in range(12)) + "\n  )\n")
 PRINTER = {I32: "$p32", I64: "$p", F32: "$pf32", F64: "$pf64"}
 
 
@@ -260,11 +262,14 @@ def numeric_cases(ins, rng, per_axis, n_extra):
 def numeric_module(ins, cases):
     """one function computing `ins` on its parameters; _start applies it to every case and prints the result bits"""
     ptypes, rt = NUMERIC[ins]
-    L = [HEADER, "  (memory 1)\n", PFUNCS]
+    L = [HEADER, "  (memory 1)\n", PFUNCS, DIRTY]
     L.append("  (func $f %s (result %s)\n    %s\n    %s\n  )\n" % (
         " ".join("(param %s)" % t for t in ptypes), rt, " ".join("local.get %d" % i for i in range(len(ptypes))), ins))
     L.append('  (func $main (export "_start")\n')
-    for ops in cases:
+    for k, ops in enumerate(cases):
+        # the frame $f is about to use is first filled with all-ones (every second case with a 0x5555.. pattern): templates that
+        # write only the low half of a slot must not let the stale upper half through
+        L.append("    i64.const %d call $dirty\n" % (-1 if k % 2 == 0 else 0x5555555555555555))
         L.append("    %s call $f call %s\n" % (" ".join(push(t, v) for t, v in zip(ptypes, ops)), PRINTER[rt]))
     L.append("  )\n)\n")
     return "".join(L)
@@ -590,7 +595,11 @@ def print_module():
     body = ('  (data (i32.const 16) "Hello, \\e5\\87\\b9!\\n")\n  (func $main (export "_start")\n    i32.const 16 i32.const 11 call $puts\n'
             "    i32.const 16 i32.const 0 call $puts\n    i32.const 65 call $print_rune i32.const 10 call $print_rune\n"
             "    i64.const 0 call $p i64.const -1 call $p i64.const 9223372036854775807 call $p i64.const -9223372036854775808 call $p i64.const -9223372036854775807 call $p\n"
-            "    i64.const 1000000000000 call $p i64.const -10 call $p\n  )\n")
+            "    i64.const 1000000000000 call $p i64.const -10 call $p\n"
+            "    i64.const -2147483648 call $p i64.const 2147483647 call $p i64.const 4294967295 call $p i64.const 4294967296 call $p i64.const -4294967296 call $p\n" +
+            "".join("    i64.const %d call $p i64.const %d call $p i64.const %d call $p i64.const %d call $p\n" % (10 ** k - 1, 10 ** k, -(10 ** k), -(10 ** k) + 1)
+                    for k in range(1, 19)) +
+            "    i64.const -9223372036854775808 call $print_i64 i64.const -9223372036854775808 call $print_i64 i32.const 10 call $print_rune\n  )\n")
     return HEADER + extra + "  (memory 1)\n" + PFUNCS + body + ")\n"
 
 
